@@ -411,7 +411,7 @@ func bBEGet(n int) bhandler {
 		// bytes are in 0..255, so the value is in range
 		for i := 0; i < n; i++ {
 			bt := sel(arr, add(app("s_off", s.S), fmt.Sprint(i)))
-			x.sc.assert("(and (<= 0 " + bt + ") (<= " + bt + " 255))")
+			x.assumeHere("(and (<= 0 " + bt + ") (<= " + bt + " 255))")
 		}
 		return v, b.st
 	}
